@@ -141,3 +141,57 @@ package protocol
 //@     invariant dstOffset >= extractedPayloadLen ==> chunkIndex == len(encoded) / 8
 //@     invariant chunkIndex > 0 ==> (paddingBit == 0 && lePad(encoded, halfMask, int32(rotation), 0, extractedPayloadLen, int(mode) + 3) == 0) || (paddingBit == 1 && lePad(encoded, halfMask, int32(rotation), 0, extractedPayloadLen, int(mode) + 3) != 0)
 //@     invariant forall(i, 0, chunkIndex, lePad(encoded, halfMask, int32(rotation), i, extractedPayloadLen, int(mode) + 3) == ite(lePad(encoded, halfMask, int32(rotation), 0, extractedPayloadLen, int(mode) + 3) == 0, 0, ^leDataMask(halfMask, int32(rotation), i, extractedPayloadLen, int(mode) + 3)))
+//@
+//@ // ---- segment trees: ordered-container assumption over google/btree -------------
+//@ // (DESIGN.md section 6). For the receive queue, DeleteMin yields the next chunk
+//@ // of the peer application's stream appin at ghost position qpos.
+//@ func (t *segmentTree) Len() (n int)
+//@   trusted ordered container over google/btree, guarded by its own mutex
+//@   ensures n >= 0
+//@
+//@ func (t *segmentTree) DeleteMin() (seg *segment, ok bool)
+//@   trusted ordered container over google/btree; receive-queue segments are stream chunks in order
+//@   modifies ghost(qpos)
+//@   ensures ok ==> seg != nil && seg.metadata != nil && (typeof(seg.metadata) == typeid(*sessionStruct) || typeof(seg.metadata) == typeid(*dataAckStruct))
+//@   ensures ok && typeof(seg.metadata) == typeid(*sessionStruct) ==> payload(seg.metadata, *sessionStruct) != nil
+//@   ensures ok && typeof(seg.metadata) == typeid(*dataAckStruct) ==> payload(seg.metadata, *dataAckStruct) != nil
+//@   ensures ok ==> ghost(qpos) == old(ghost(qpos)) + mathint(len(seg.payload)) && forall(i, 0, len(seg.payload), seg.payload[i] == appin(old(ghost(qpos)) + mathint(i)))
+//@   ensures !ok ==> seg == nil && ghost(qpos) == old(ghost(qpos))
+//@   ensures ok && len(seg.payload) > 0 ==> isProtoBuf(baseof(seg.payload))
+//@
+//@ func (s *Session) forwardStateTo(next sessionState)
+//@   trusted compare-and-swap loop on the atomic state; only ever moves the state forward
+//@   requires s != nil
+//@   modifies s.state
+//@
+//@ // Delivery law (C01), cursor part: Read advances the application's position in the
+//@ // stream appin by exactly the number of bytes it returns - the stream position of the
+//@ // next unread byte is qpos - len(unreadBuf) - so no byte is skipped or delivered twice,
+//@ // whatever the buffer size and the segment boundaries are. (The byte-content part,
+//@ // b[i] == appin(position+i), is written in DESIGN.md; its obligations are not yet
+//@ // stable enough to be claimed.)
+//@ func (s *Session) Read(b []byte) (n int, err error)
+//@   property C01 C19 C15
+//@   mode int
+//@   requires s != nil && s.recvQueue != nil
+//@   requires !isProtoBuf(baseof(b)) && (len(s.unreadBuf) > 0 ==> isProtoBuf(baseof(s.unreadBuf)))
+//@   requires ghost(qpos) >= mathint(len(s.unreadBuf))
+//@   modifies b[..], s.unreadBuf, s.readDeadline, s.state, ghost(qpos), ghost(added)
+//@   ensures err == nil ==> 0 <= n && n <= len(b)
+//@   ensures ghost(qpos) - mathint(len(s.unreadBuf)) == old(ghost(qpos)) - mathint(old(len(s.unreadBuf))) + mathint(n)
+//@   ensures ghost(qpos) >= mathint(len(s.unreadBuf))
+//@   ensures len(s.unreadBuf) > 0 ==> isProtoBuf(baseof(s.unreadBuf))
+//@   ensures err == nil && len(b) > 0 ==> n > 0
+//@   ensures err != nil ==> n == 0
+//@   ensures err == nil && !s.isClient && s.uploadBytes != nil ==> ghost(added) == old(ghost(added)) + mathint(n)
+//@   ensures err != nil || s.isClient || s.uploadBytes == nil ==> ghost(added) == old(ghost(added))
+//@   ensures s.readDeadline.v == old(s.readDeadline.v)
+//@   loop 1:
+//@     modifies b[..], s.unreadBuf, s.state
+//@     invariant 0 <= n && n <= len(b) && len(b) > 0
+//@     invariant ghost(qpos) - mathint(len(s.unreadBuf)) == old(ghost(qpos)) - mathint(old(len(s.unreadBuf))) + mathint(n)
+//@     invariant ghost(qpos) >= mathint(len(s.unreadBuf))
+//@     invariant ghost(added) == old(ghost(added))
+//@     invariant len(s.unreadBuf) > 0 ==> isProtoBuf(baseof(s.unreadBuf))
+//@     // C15: whenever a read deadline is in force the wait below is armed with it
+//@     invariant old(s.readDeadline.v) != 0 ==> timeC != nil
